@@ -387,7 +387,7 @@ mod ir_builder {
 
             rule op_contract_call() -> IrAstOperation
                 = "contract_call" _
-                ty:ast_ty() _ name:id() _
+                ty:ast_ty() _ name:(name:id() !"," { name })? _
                 params:id() comma() coins:id() comma() asset_id:id() comma() gas:id() _ {
                     IrAstOperation::ContractCall(ty, name, params, coins, asset_id, gas)
             }
@@ -645,13 +645,17 @@ mod ir_builder {
                 = "()" _ { IrAstConstValue::Unit }
                 / "true" _ { IrAstConstValue::Bool(true) }
                 / "false" _ { IrAstConstValue::Bool(false) }
-                / "0x" s:$(hex_digit()*<64>) _ {
+                / "0x" s:$(hex_digit()*<64>) !hex_digit() _ {
                     IrAstConstValue::Hex256(string_to_hex::<32>(s))
                 }
+                / "0x" bytes:hex_byte()* _ { IrAstConstValue::RawSlice(bytes) }
                 / n:decimal() { IrAstConstValue::Number(n) }
                 / string_const()
                 / array_const()
                 / struct_const()
+
+            rule hex_byte() -> u8
+                = h:hex_digit() l:hex_digit() { (h << 4) | l }
 
             rule string_const() -> IrAstConstValue
                 = ['"'] chs:str_char()* ['"'] _ {
@@ -930,7 +934,7 @@ mod ir_builder {
         Cbr(String, String, Vec<String>, String, Vec<String>),
         Cmp(Predicate, String, String),
         Const(IrAstTy, IrAstConst),
-        ContractCall(IrAstTy, String, String, String, String, String),
+        ContractCall(IrAstTy, Option<String>, String, String, String, String),
         GetElemPtr(String, IrAstTy, Vec<String>),
         GetLocal(String),
         GetGlobal(Vec<String>),
@@ -991,6 +995,7 @@ mod ir_builder {
         Unit,
         Bool(bool),
         Hex256([u8; 32]),
+        RawSlice(Vec<u8>),
         Number(u64),
         String(Vec<u8>),
         Array(IrAstTy, Vec<IrAstConst>),
@@ -1026,8 +1031,10 @@ mod ir_builder {
                         let value = B256::from_be_bytes(bs);
                         ConstantValue::B256(value)
                     }
+                    IrAstTy::Slice => ConstantValue::RawUntypedSlice(bs.to_vec()),
                     _ => unreachable!("invalid type for hex number"),
                 },
+                IrAstConstValue::RawSlice(bytes) => ConstantValue::RawUntypedSlice(bytes.clone()),
                 IrAstConstValue::Number(n) => ConstantValue::Uint(*n),
                 IrAstConstValue::String(bs) => ConstantValue::String(bs.clone()),
                 IrAstConstValue::Array(el_ty, els) => {
@@ -1077,8 +1084,16 @@ mod ir_builder {
                         ConstantContent::get_uint256(context, n)
                     }
                     IrAstTy::B256 => ConstantContent::get_b256(context, *bs),
+                    IrAstTy::Slice => {
+                        let slice_const = self.as_constant(context, val_ty);
+                        Value::new_constant(context, slice_const)
+                    }
                     _ => unreachable!("invalid type for hex number"),
                 },
+                IrAstConstValue::RawSlice(_) => {
+                    let slice_const = self.as_constant(context, val_ty);
+                    Value::new_constant(context, slice_const)
+                }
                 IrAstConstValue::Number(n) => match val_ty {
                     IrAstTy::U8 => ConstantContent::get_uint(context, 8, *n),
                     IrAstTy::U64 => ConstantContent::get_uint(context, 64, *n),
@@ -1659,7 +1674,7 @@ mod ir_builder {
                             .append(context)
                             .contract_call(
                                 ir_ty,
-                                Some(name),
+                                name,
                                 *val_map.get(&params).unwrap(),
                                 *val_map.get(&coins).unwrap(),
                                 *val_map.get(&asset_id).unwrap(),
